@@ -82,7 +82,7 @@ class SetDistance(Functional):
         """
         y = self.proj(*((v,) + self.args))
         d = snp.linalg.norm(v - y)
-        𝜃 = lam / d if d >= lam else 1.0
+        𝜃 = snp.where(d >= lam, lam / snp.where(d >= lam, d, 1.0), 1.0)
         return 𝜃 * y + (1.0 - 𝜃) * v
 
 
